@@ -52,6 +52,28 @@ def sample(rng, t, w, style):
     return struct.unpack("<d", struct.pack("<Q", bits))[0]
 
 
+def delta_walk(rng, t, w, n):
+    """a sample sequence built from its steps: every step is drawn from a class (0, +-1, a step of exactly k bits for each k up to w, the half-range
+    steps +-(2^(w-1) - 1), +-2^(w-1), +-(2^(w-1) + 1) that wrap), so that delta coders (DWVW, DPCM, ALAC) meet every code-word length next to every
+    other one at every bit alignment"""
+    bits = 16 if t == "s" else 32
+    w = min(w, bits)
+    half = 1 << (w - 1)
+    x, out = 0, []
+    for _ in range(n):
+        c = rng.below(8)
+        if c == 0:
+            d = rng.choice([0, 1, -1])
+        elif c <= 2:
+            d = rng.choice([half - 1, half, half + 1, -(half - 1), -half, -(half + 1)])
+        else:
+            k = rng.range(1, w - 1)
+            d = rng.range(1 << (k - 1), (1 << k) - 1) * rng.choice([1, -1])
+        x = ((x + d + half) % (2 * half)) - half
+        out.append(x << (bits - w))
+    return out
+
+
 def tok(t, v):
     return str(v) if t in "si" else gens.f32hex(v) if t == "f" else gens.f64hex(v)
 
@@ -109,6 +131,9 @@ def gen(ctx, q):
                         continue
                     noise = rng.below(4) != 0
                     vals = [sample(rng, t, w, noise) for _ in range(n * ch)]
+                    if sub in WIDTH and n > 3 and rng.below(3) == 0:
+                        vals = delta_walk(rng, t, w, n * ch)
+                        dist["delta_walk_files"] = dist.get("delta_walk_files", 0) + 1
                     route = " p.sd2" if name.startswith("SD2/") else ""       # SD2 needs its resource fork file: path route
                     L.append("open 0 %d w %x %d 8000 12345%s" % (sid, f, ch, route))
                     cut = rng.range(0, n) if n > 1 and rng.below(2) else n
@@ -126,6 +151,27 @@ def gen(ctx, q):
                     L.append("close 0")
                     dist["files"] += 1
                     sid = (sid + 1) % 30
+    for f in sorted(combos):
+        name = formats.name(f)
+        sub = name.split("/")[1]
+        if not (sub.startswith("DWVW") or sub.startswith("DPCM") or sub.startswith("ALAC")) or (f >> 28) != 0:
+            continue
+        w = WIDTH[sub]
+        for rep in range(2 if q else 12):
+            t = "i" if w > 16 or rep % 2 else "s"
+            n = 6000 if not sub.startswith("ALAC") else 4200
+            vals = delta_walk(rng, t, w, n)
+            L.append("open 0 %d w %x 1 8000 0" % (sid, f))
+            L.append("w 0 %s f %d %s" % (t, n, " ".join(str(v) for v in vals)))
+            L.append("close 0")
+            L.append(("open 0 %d r 0 0 0 0" % sid) if not name.startswith("RAW/") else "open 0 %d r %x 1 8000" % (sid, f))
+            plan.append((len(L), "reopen", (name, 1, n)))
+            L.append("r 0 %s f %d" % (t, n))
+            plan.append((len(L), "read", (name, 1, n, t, fnv_vals(vals, t))))
+            L.append("close 0")
+            dist["files"] += 1
+            dist["delta_walk_files"] = dist.get("delta_walk_files", 0) + 1
+            sid = (sid + 1) % 30
     return "\n".join(L) + "\n", plan, dist
 
 
